@@ -175,8 +175,34 @@ func genAsm(g *vh.Gen) {
 		if !bytes.HasSuffix(bytes.ToUpper(bytes.TrimRight(stream, "\r\n")), []byte("QUIT")) {
 			stream = append(stream, []byte("QUIT\r\n")...)
 		}
+		stream = closeOpenBlock(stream)
 		g.Emit("asm", append(c.Fields(), vh.H(stream))...)
 	}
+}
+
+// closeOpenBlock: a dialogue whose last DATA line is not followed by a terminating "." line may end INSIDE a mail data
+// block; over real TCP the session then ends by whichever comes first, the client's EOF or the child's shutdown (which
+// says 221) - an order the harness does not control under load. Such a stream gets the terminator and a QUIT: the
+// session then always ends by its own QUIT (if the DATA line had been refused the "." is one more unknown command).
+func closeOpenBlock(stream []byte) []byte {
+	lines := bytes.Split(stream, []byte("\n"))
+	last, dot := -1, -1
+	for i, l := range lines {
+		t := strings.ToUpper(strings.TrimRight(string(l), "\r"))
+		if strings.TrimSpace(t) == "DATA" {
+			last = i
+		}
+		if t == "." {
+			dot = i
+		}
+	}
+	if last >= 0 && dot < last {
+		if !bytes.HasSuffix(stream, []byte("\n")) {
+			stream = append(stream, []byte("\r\n")...)
+		}
+		stream = append(stream, []byte(".\r\nQUIT\r\n")...)
+	}
+	return stream
 }
 
 func setenv(k, v string) {
